@@ -283,6 +283,19 @@ pub fn main_seq(dispatch: Dispatch) {
     if args.len() >= 2 && args[1] == "threads" {
         return threads::main_threads(dispatch, &args[2..]);
     }
+    if let Some(mb) = std::env::var("VFRT_STACK_MB").ok().and_then(|s| s.parse::<usize>().ok()) {
+        // deep-nesting workloads: the whole sequential driver runs on one thread with a large native stack
+        return std::thread::Builder::new()
+            .stack_size(mb << 20)
+            .spawn(move || main_seq_inner(dispatch, args))
+            .unwrap()
+            .join()
+            .expect("sequential driver thread died");
+    }
+    main_seq_inner(dispatch, args)
+}
+
+fn main_seq_inner(dispatch: Dispatch, args: Vec<String>) {
     let cases = read_cases(&args[1]);
     let skip: usize = args.get(3).map(|s| s.parse().unwrap()).unwrap_or(0);
     let mut out = std::fs::OpenOptions::new()
